@@ -5,6 +5,7 @@
 import OlVerif.Gen.Dispatch
 import OlVerif.Lower.Stmt
 import OlVerif.Lower.Binder
+import OlVerif.Lower.BindersStmt
 
 namespace OlVerif.C09
 
@@ -45,5 +46,28 @@ theorem helper_names_prefixed (s : Supply) (p : String) : (s.fresh p).1.toList.t
 /-- the comprehension-local helper variables of while loops and class loaders are reserved names -/
 theorem loop_helpers_reserved :
     whileCounter.startsWith "__ol_" = true ∧ classKey.startsWith "__ol_" = true ∧ classValue.startsWith "__ol_" = true := by decide +kernel
+
+
+/-! ### which names the converted program binds -/
+
+/-- **No foreign binder.**  `bnd e` lists every name bound anywhere inside the expression `e`:
+    walrus targets, lambda parameters of every kind, comprehension target names; `srcB body` the
+    names the script itself binds (assignment / loop / comprehension targets, def and class names,
+    parameters, imported names, walrus targets).  Every name the converted program binds is a name
+    the script binds, or carries the reserved prefix `__ol_`, or is one of the seven audited helper
+    names (`_`, `__`, `self`, `it`, `__class__`, `itertools`, `importlib`) - for every program, every
+    configuration, every symbol table.  Induction over all statement kinds (`Lower/BindersStmt.lean`)
+    on top of: the expression transformer adds no binder (`transf_bnd`, 13 mutual functions), every
+    namespace of the tree `generateNsp` builds has reserved names, every temporary comes from the
+    name supply (`res_fresh`). -/
+theorem no_foreign_binders (cfg : Cfg) (root : SymScope) (body : List Stmt) (e : Expr)
+    (h : lowerFull cfg root body = .ok e) :
+    ∀ x ∈ bnd e, x ∈ srcB body ∨ x.toList.take 5 = "__ol_".toList ∨ x ∈ auditedBinders :=
+  lowerFull_bnd cfg root body e h
+
+/-- the expression transformer binds nothing the expression did not bind -/
+theorem transformer_adds_no_binder (n : Nsp) (b : List String) (e e' : Expr) (h : transf n b e = .ok e') :
+    ∀ x ∈ bnd e', x ∈ bnd e :=
+  fun _ hx => transf_bnd n b e e' h hx
 
 end OlVerif.C09
